@@ -7,16 +7,28 @@
    MODEL  Ted/ZS.v [ComputeDistance]/[ComputeSimilarity]: internal/analyzer/apted.go + apted_tree.go, exact path.
    COSTS  Ted/Cost.v: the three shipped cost models from Gen/TedConst.v, in integer units (1 resp. 2^-120).
 
-   FULL STATEMENT (not proved in general; checked below on a bounded domain and sampled by the harness):
-     forall c t1 t2, shipped c -> tsize t1 <= 500 -> tsize t2 <= 500 ->
-       ComputeDistance c (Some t1) (Some t2) = Some (ted c t1 t2).
-   Proved: (a) every "consequently" clause for the spec, for all forests of any size; (b) the clauses that hold by
-   construction for the model at any size (similarity range, nil cases); (c) model = spec = brute-force minimum over
-   all Tai mappings on all pairs of trees with <= 4 nodes over 2 labels and <= 3 nodes over 3 labels, for the three cost
-   models ([_bounded], by vm_compute); (d) the memoised evaluator the check runs equals the spec (all inputs). *)
-From Coq Require Import ZArith QArith String List.
+   FULL STATEMENT — now PROVED for all trees and EVERY cost model (no hypothesis on the costs at all, so in
+   particular for the shipped ones), [C07_ComputeDistance_exact]:
+     forall c t1 t2, tsize t1 <= 500 -> tsize t2 <= 500 -> ComputeDistance c (Some t1) (Some t2) = Some (ted c t1 t2),
+   from [C07_zs_exact : zs c t1 t2 = ted c t1 t2] (no size bound).  Ingredients, each an unbounded theorem below:
+     - the leftmost-root recurrence [delta] also satisfies the rightmost-root recurrence, is sub-additive under
+       concatenation, and therefore satisfies the Zhang–Shasha recurrence (section (e));
+     - PrepareTreeForAPTED numbers the nodes in post-order, LeftMostLeaf(x) = x + 1 - |subtree(x)|, and the key roots
+       are exactly one node per left-most-leaf class, the largest ([C07_prepare_nodes_postorder], [C07_keyroots_spec]);
+     - computeForestDistance for positions (i,j): every td cell it writes is the tree distance of the two subtrees,
+       provided the td cells it reads are ([C07_forest_table_invariant]); key roots are processed in increasing order,
+       so they are.  The zero defaults of the tables are never read except fd[l(i)][l(j)] = 0, which is intended.
+   Also proved: (a) every "consequently" clause for the spec, for all forests of any size; (b) the same clauses for
+   the MODEL at any size on the exact path ([C07_zs_clauses], [C07_sim_exact], nil cases [C07_nil_cases]);
+   (c) the earlier bounded theorems (kept): model = spec = brute-force minimum over all Tai mappings on all pairs of
+   trees with <= 4 nodes over 2 labels and <= 3 nodes over 3 labels; (d) the memoised evaluator equals the spec.
+   (f) [C07_delta_is_min]: the recurrence equals the brute-force minimum over ALL Tai mappings ([mapping_min] of
+   Ted/TedBrute.v) for all forests and all cost models (Tai's theorem; both inequalities), hence
+   [C07_zs_is_min]: the model returns the minimum edit cost. *)
+From Coq Require Import ZArith NArith QArith String List Lia.
 From PV Require Import Gen.TedConst Ted.TedSpec Ted.TedProofs Ted.Cost Ted.CostProofs Ted.ZS Ted.TedSim Ted.TedMemo
-  Ted.TedBrute Ted.BoundedDefs Ted.BoundedPython Ted.TedCorollaries Ted.ZSRefine.
+  Ted.TedBrute Ted.BoundedDefs Ted.BoundedPython Ted.TedCorollaries Ted.ZSRefine
+  Ted.TedRight Ted.ZSPost Ted.ZSPrepare Ted.ZSTable Ted.ZSExact Ted.ZSCorollaries Ted.TaiSteps Ted.TaiUpper Ted.TaiLower.
 Import ListNotations.
 
 (* ---------- (a) the spec, unbounded ------------------------------------------------------------------ *)
@@ -83,6 +95,107 @@ Proof. exact zs_clauses_bounded. Qed.
 Theorem C07_delta_memo_eq : forall c F G, delta_memo c F G = delta c F G.
 Proof. exact delta_memo_eq. Qed.
 
+(* ---------- (e) UNBOUNDED: the model computes exactly the spec ------------------------------------------ *)
+(* the spec also satisfies the rightmost-root recurrence ... *)
+Theorem C07_delta_right_rec : forall c F0 a F1 G0 b G1,
+  delta c (F0 ++ [Node a F1]) (G0 ++ [Node b G1]) =
+  min3 (delta c (F0 ++ F1) (G0 ++ [Node b G1]) + del c a)%Z (delta c (F0 ++ [Node a F1]) (G0 ++ G1) + ins c b)%Z
+       (delta c F0 G0 + delta c F1 G1 + ren c a b)%Z.
+Proof. exact delta_right. Qed.
+(* ... is sub-additive under concatenation ... *)
+Theorem C07_delta_app_le : forall c B E A C, (delta c (A ++ B) (C ++ E) <= delta c A C + delta c B E)%Z.
+Proof. exact delta_app_le. Qed.
+(* ... and hence satisfies the recurrence of the forest-distance table (third option: the TREE distance) *)
+Theorem C07_delta_zs_rec : forall c F0 a F1 G0 b G1,
+  delta c (F0 ++ [Node a F1]) (G0 ++ [Node b G1]) =
+  min3 (delta c (F0 ++ F1) (G0 ++ [Node b G1]) + del c a)%Z (delta c (F0 ++ [Node a F1]) (G0 ++ G1) + ins c b)%Z
+       (delta c F0 G0 + delta c [Node a F1] [Node b G1])%Z.
+Proof. exact delta_zs_rec. Qed.
+
+(* PrepareTreeForAPTED: entry x of the node array is (label of the x-th subtree in post-order, x + 1 - its size) *)
+Theorem C07_prepare_nodes_postorder : forall t,
+  N.of_nat (length (getPostOrderNodes (fst (PrepareTreeForAPTED t)))) = size t /\
+  forall x, (x < size t)%N ->
+    node_at (getPostOrderNodes (fst (PrepareTreeForAPTED t))) x = (label_of (sub t x), lmlT t x) /\
+    lmlT t x = (x + 1 - size (sub t x))%N /\ (size (sub t x) <= x + 1)%N.
+Proof.
+  intros t. split; [apply prepare_nodes_length|]. intros x Hx.
+  split; [apply prepare_node_at; exact Hx|]. split; [reflexivity | apply sub_size; exact Hx].
+Qed.
+
+(* key roots: in range; every node has a key root with the same left-most leaf that is >= it; one per class *)
+Theorem C07_keyroots_spec : forall t, let K := snd (PrepareTreeForAPTED t) in
+  (forall k, In k K -> (k < size t)%N) /\
+  (forall x, (x < size t)%N -> exists k, In k K /\ lmlT t k = lmlT t x /\ (x <= k)%N) /\
+  (forall k k', In k K -> In k' K -> lmlT t k = lmlT t k' -> k = k').
+Proof. exact keyroots_spec. Qed.
+
+(* computeForestDistance for in-range positions (i,j): if the td cells of the pairs (x,y) in the two spans that are not
+   both "tree prefixes" already hold the tree distances ([A0]), then afterwards so do the cells of the tree prefixes *)
+Theorem C07_forest_table_invariant : forall c t1 t2 i j (A0 : N -> N -> Prop) td,
+  let nodes1 := getPostOrderNodes (fst (PrepareTreeForAPTED t1)) in
+  let nodes2 := getPostOrderNodes (fst (PrepareTreeForAPTED t2)) in
+  (i < size t1)%N -> (j < size t2)%N ->
+  (forall x y, (lmlT t1 i <= x)%N -> (x <= i)%N -> (lmlT t2 j <= y)%N -> (y <= j)%N ->
+               ~ (lmlT t1 x = lmlT t1 i /\ lmlT t2 y = lmlT t2 j) -> A0 x y) ->
+  (forall x y, A0 x y -> tget td (x + 1) (y + 1) = ted c (sub t1 x) (sub t2 y)) ->
+  forall x y, A0 x y \/ ((lmlT t1 i <= x)%N /\ (x <= i)%N /\ (lmlT t2 j <= y)%N /\ (y <= j)%N /\
+                         lmlT t1 x = lmlT t1 i /\ lmlT t2 y = lmlT t2 j) ->
+    tget (computeForestDistance c nodes1 nodes2 i j td) (x + 1) (y + 1) = ted c (sub t1 x) (sub t2 y).
+Proof.
+  intros c t1 t2 i j A0 td nodes1 nodes2 Hi Hj HA0 HT.
+  exact (cfd_spec c t1 t2 nodes1 nodes2 (prepare_node_at t1) (prepare_node_at t2)
+           (prepare_nodes_length t1) (prepare_nodes_length t2) i j Hi Hj A0 HA0 td HT).
+Qed.
+
+(* the Zhang–Shasha model = the recursive spec: all trees, all cost models *)
+Theorem C07_zs_exact : forall c a b, zs c a b = ted c a b.
+Proof. exact zs_exact. Qed.
+(* the FULL STATEMENT of the header (for every cost model, hence for the shipped ones) *)
+Theorem C07_ComputeDistance_exact : forall c t1 t2, (tsize t1 <= 500)%nat -> (tsize t2 <= 500)%nat ->
+  ComputeDistance c (Some t1) (Some t2) = Some (ted c t1 t2).
+Proof. exact ComputeDistance_is_ted. Qed.
+(* all four nil / non-nil combinations at once; outside the exact path the model gives no value *)
+Theorem C07_nil_cases : forall c o1 o2, exact_path o1 o2 ->
+  ComputeDistance c o1 o2 = Some (delta c (oforest o1) (oforest o2)).
+Proof. exact ComputeDistance_total. Qed.
+Theorem C07_large_undefined : forall c t1 t2, (500 < tsize t1)%nat \/ (500 < tsize t2)%nat ->
+  ComputeDistance c (Some t1) (Some t2) = None.
+Proof. exact ComputeDistance_large. Qed.
+
+(* the "consequently" clauses for the MODEL, any trees on the exact path, any cost model with the three properties *)
+Theorem C07_zs_clauses : forall c a b, cost_nonneg c -> ren_refl c -> cost_sym c ->
+  (tsize a <= 500)%nat -> (tsize b <= 500)%nat ->
+  exists d, ComputeDistance c (Some a) (Some b) = Some d /\ ComputeDistance c (Some b) (Some a) = Some d /\
+            ComputeDistance c (Some a) (Some a) = Some 0%Z /\ (0 <= d <= del_tree c a + ins_tree c b)%Z.
+Proof. exact zs_clauses. Qed.
+Theorem C07_sim_exact : forall scale c t1 t2, (tsize t1 <= 500)%nat -> (tsize t2 <= 500)%nat ->
+  ComputeSimilarity scale c (Some t1) (Some t2) = Some (sim_spec scale c t1 t2).
+Proof. exact ComputeSimilarity_is_spec. Qed.
+Theorem C07_sim_self_one : forall scale c t, cost_nonneg c -> ren_refl c -> (tsize t <= 500)%nat ->
+  exists s, ComputeSimilarity scale c (Some t) (Some t) = Some s /\ (s == 1)%Q.
+Proof. exact ComputeSimilarity_self. Qed.
+(* hypotheses are satisfiable: the shipped default model on two 3-node trees *)
+Example C07_exact_example : ComputeDistance default_cost (Some (Node 0 [Node 1 []; Node 2 []])) (Some (Node 0 [Node 1 [Node 2 []]]))
+  = Some (ted default_cost (Node 0 [Node 1 []; Node 2 []]) (Node 0 [Node 1 [Node 2 []]])).
+Proof. apply C07_ComputeDistance_exact; cbn; lia. Qed.
+
+(* ---------- (f) UNBOUNDED: the spec is the minimum over all Tai mappings ------------------------------- *)
+(* some mapping achieves the recurrence ... *)
+Theorem C07_mapping_min_le_delta : forall c F G, (mapping_min c F G <= delta c F G)%Z.
+Proof. exact mapping_min_le_delta. Qed.
+(* ... and no mapping is cheaper *)
+Theorem C07_delta_le_mapping_min : forall c F G, (delta c F G <= mapping_min c F G)%Z.
+Proof. exact delta_le_mapping_min. Qed.
+Theorem C07_delta_is_min : forall c a b, ted c a b = mapping_min c [a] [b].
+Proof. intros. apply delta_is_min. Qed.
+Theorem C07_delta_is_min_forests : forall c F G, delta c F G = mapping_min c F G.
+Proof. exact delta_is_min. Qed.
+(* the model returns the minimum edit cost *)
+Theorem C07_zs_is_min : forall c t1 t2, (tsize t1 <= 500)%nat -> (tsize t2 <= 500)%nat ->
+  ComputeDistance c (Some t1) (Some t2) = Some (mapping_min c [t1] [t2]).
+Proof. intros c t1 t2 H1 H2. rewrite ComputeDistance_is_ted by assumption. f_equal. apply delta_is_min. Qed.
+
 (* observation: under the Python-aware costs insert(FunctionDef) > insert(Decorator) + rename(Decorator, FunctionDef) *)
 Theorem C07_python_cost_not_metric : (ins c_python 1 > ins c_python 0 + ren c_python 0 1)%Z.
 Proof. exact python_cost_not_metric. Qed.
@@ -107,3 +220,21 @@ Print Assumptions C07_delta_is_min_bounded.
 Print Assumptions C07_zs_clauses_bounded.
 Print Assumptions C07_delta_memo_eq.
 Print Assumptions C07_python_cost_not_metric.
+Print Assumptions C07_delta_right_rec.
+Print Assumptions C07_delta_app_le.
+Print Assumptions C07_delta_zs_rec.
+Print Assumptions C07_prepare_nodes_postorder.
+Print Assumptions C07_keyroots_spec.
+Print Assumptions C07_forest_table_invariant.
+Print Assumptions C07_zs_exact.
+Print Assumptions C07_ComputeDistance_exact.
+Print Assumptions C07_nil_cases.
+Print Assumptions C07_large_undefined.
+Print Assumptions C07_zs_clauses.
+Print Assumptions C07_sim_exact.
+Print Assumptions C07_sim_self_one.
+Print Assumptions C07_mapping_min_le_delta.
+Print Assumptions C07_delta_le_mapping_min.
+Print Assumptions C07_delta_is_min.
+Print Assumptions C07_delta_is_min_forests.
+Print Assumptions C07_zs_is_min.
